@@ -141,7 +141,7 @@ fn build_system(node: roxmltree::Node) -> VypSystem {
             multiplier,
             // ignoramos este dato ya que es redundante con el de la demanda
             // dhw_supply_temp: get_tag_as_f32(&node, "tImpulsion").unwrap(),
-            dhw_demand: dhw_demand.unwrap(),
+            dhw_demand: dhw_demand.unwrap_or_default(),
             equipment,
         },
         "SIS_Mixto" | "SIS_CalefaccionPorAgua" => {
@@ -158,7 +158,7 @@ fn build_system(node: roxmltree::Node) -> VypSystem {
                 heating_supply_temp,
                 dhw_demand,
                 equipment,
-                zone_equipment: zone_equipment.unwrap(),
+                zone_equipment: zone_equipment.unwrap_or_default(),
             }
         }
         "SIS_ClimatizacionUnizona" => {
@@ -176,7 +176,7 @@ fn build_system(node: roxmltree::Node) -> VypSystem {
             let has_heat_recovery = ["Sí tiene", "Si", "Sí"].contains(
                 &get_tag_text(&node, "recuperacionCalor")
                     .map(|s| s.trim().trim_matches('"'))
-                    .unwrap(),
+                    .unwrap_or_default(),
             );
             // Solo conductos 2
             let heat_recovery_eff = get_tag_as_f32_or_default(&node, "eficienciaRecuperador");
@@ -213,7 +213,7 @@ fn build_system(node: roxmltree::Node) -> VypSystem {
                 return_air_flow,
                 options,
                 equipment,
-                zone_equipment: zone_equipment.unwrap(),
+                zone_equipment: zone_equipment.unwrap_or_default(),
             }
         }
         _ => panic!("Sistema de tipo desconocido: {}", kind),
@@ -340,7 +340,7 @@ fn build_generation_equipment(node: roxmltree::Node) -> GenerationEquipment {
         .map(|n| {
             (
                 n.tag_name().name().to_string(),
-                n.text().unwrap().trim().trim_matches('"').to_string(),
+                n.text().unwrap_or_default().trim().trim_matches('"').to_string(),
             )
         })
         .collect();
